@@ -248,6 +248,8 @@ def run_one(rng, counters):
         if not opts["use_ref"]:
             p["allow_shiftable"] = False
         P = rng.choice([2, 2, 2, 3, 4])
+        if p["paired"] and rng.random() < 0.6:
+            p["mate_overlap"] = True  # with sequencing errors the two mates can then contradict each other at a variant
         if nsamp == 2 and P == 2 and rng.random() < 0.5:
             p["names_per_sample"] = True  # each read group numbers its reads from 0: names recur across the samples
         opts["ploidy"] = P
@@ -379,6 +381,47 @@ def run_one(rng, counters):
             counters["tag_decisions_checked"] = counters.get("tag_decisions_checked", 0) + 1
             if t not in outs:
                 viol.append({"mech": "wrong-tag", "msg": "%s (%s) tagged %r, rule gives %r (scores per phase set %r)" % (a.query_name, chrom, t, sorted(outs, key=str), scores)})
+        # ---------------- observed alleles (SNV-only diploid data): what the reader reports for a read must be what the read shows
+        # (CIGAR-based detection only: with a reference the allele is defined by re-alignment of a window, where a nearby
+        # sequencing error can legitimately make the two alleles tie)
+        if opts["ploidy"] == 2 and p.get("kinds") == ["snv"] and not opts.get("regions") and not opts["use_ref"]:
+            frag = {}
+            for a in got:
+                if a.reference_id >= 0:
+                    frag.setdefault((a.reference_name, sample_of(a), a.query_name), []).append(a)
+            ref_alt = {(ch, v.pos): (v.ref, v.alt) for ch in sim.chroms for v in sim.variants[ch]}
+            for key, recs in frag.items():
+                chrom, sample, name = key
+                info = infos.get(sample)
+                if info is None or key not in by_name:
+                    continue
+                # plain fragments only: one or two primary alignments, nothing filtered, nothing supplementary
+                if len(recs) > 2 or any(r_.is_secondary or r_.is_supplementary or r_.is_unmapped or r_.mapping_quality < 20 for r_ in recs):
+                    continue
+                obs, clash = {}, set()
+                for r_ in recs:
+                    for qp, rp in r_.get_aligned_pairs(matches_only=True):
+                        if (chrom, rp) in info and (chrom, rp) in ref_alt:
+                            b = r_.query_sequence[qp]
+                            ref, alt = ref_alt[(chrom, rp)]
+                            al = 0 if b == ref else 1 if b == alt else None
+                            if al is None:
+                                continue
+                            if rp in obs and obs[rp] != al:
+                                clash.add(rp)
+                            obs.setdefault(rp, al)
+                for rp in clash:
+                    del obs[rp]  # the documented merge rule: only variants on which all alignments of the read agree
+                reported = {pos: al for pos, al, q in by_name[key][1] if (chrom, pos) in info}
+                counters["observed_allele_sets_compared"] = counters.get("observed_allele_sets_compared", 0) + 1
+                if clash:
+                    counters["fragments_with_contradicting_mates"] = counters.get("fragments_with_contradicting_mates", 0) + 1
+                if reported != obs:
+                    diff = sorted(set(obs.items()) ^ set(reported.items()))
+                    viol.append({"mech": "reported-alleles-differ-from-read" + (":contradicting-mates" if clash else ""),
+                                 "msg": "%s %s (%s): the read shows alleles %r at the phased SNVs (mates contradict at %r), the reader reported %r; differing %r" % (
+                                     sample, name, chrom, sorted(obs.items()), sorted(clash), sorted(reported.items()), diff[:4])})
+                    break
         # ---------------- list file
         names = {}
         with open(lst) as fh:
@@ -444,7 +487,7 @@ def run_one(rng, counters):
                         if tb_ != want:
                             # a read whose evidence ties between two phase sets may legitimately move
                             key = (a.reference_name, sample_of(a), a.query_name)
-                            if key in by_name:
+                            if key in by_name and not linked:
                                 sample, vars_, bx = by_name[key]
                                 outs, scores = decide(vars_, infos.get(sample) or {}, a.reference_name)
                                 if len(outs) > 1:
